@@ -165,6 +165,9 @@ if __name__ == "__main__":
     elif cmd == "import4":
         for pid in sys.argv[2:]:
             do_import(pid, ("G", "H"), base="/tmp/wt4")
+    elif cmd == "import7":
+        for pid in sys.argv[2:]:
+            do_import(pid, ("M", "N"), base="/tmp/wt7")
     elif cmd == "import6":
         for pid in sys.argv[2:]:
             do_import(pid, ("K", "L"), base="/tmp/wt6")
